@@ -29,6 +29,9 @@ type rangeEnv struct {
 	paramConst map[*ssa.Parameter][]int64         // constants passed at *all* static call sites (unexported, never used as a value)
 	retLen     map[*ssa.Function]*int64          // constant length of the returned slice (result 0), nil = unknown
 	fieldInv   map[string]int64                  // reviewed field invariants: len(field) >= n (verified inductively)
+	retGE      map[*ssa.Function][]int           // relational return summaries: len(result 0) >= parameter k
+	nilErrSum  map[*ssa.Function]*nilErrSummary  // facts a helper has established when it returns a nil error
+	nilErrBusy map[*ssa.Function]bool
 }
 
 func fieldID(fa *ssa.FieldAddr) string {
@@ -77,6 +80,7 @@ func (w *World) rangeEnv() *rangeEnv {
 	}
 	sites := map[*ssa.Function]int{}
 	nonConst := map[*ssa.Parameter]bool{}
+	paramFrom := map[*ssa.Parameter][]*ssa.Parameter{} // parameters handed on unchanged from a caller's parameter
 	usedAsValue := map[*ssa.Function]bool{}
 	all := w.forkFuncsAll()
 	for _, fn := range all {
@@ -105,6 +109,10 @@ func (w *World) rangeEnv() *rangeEnv {
 										continue
 									}
 								}
+								if q, isParam := arg.(*ssa.Parameter); isParam && q.Parent() == fn {
+									paramFrom[c.Params[i]] = append(paramFrom[c.Params[i]], q)
+									continue
+								}
 								nonConst[c.Params[i]] = true
 							}
 						}
@@ -126,6 +134,48 @@ func (w *World) rangeEnv() *rangeEnv {
 	for p := range env.paramConst {
 		fn := p.Parent()
 		if nonConst[p] || usedAsValue[fn] || (fn.Object() != nil && fn.Object().Exported()) || sites[fn] == 0 {
+			delete(env.paramConst, p)
+		}
+	}
+	// a parameter that only ever receives constants or such parameters of its callers takes their constants
+	resolved := map[*ssa.Parameter]bool{}
+	for round := 0; round < 3; round++ {
+		for p, srcs := range paramFrom {
+			fn := p.Parent()
+			if nonConst[p] || usedAsValue[fn] || (fn.Object() != nil && fn.Object().Exported()) {
+				continue
+			}
+			var cs []int64
+			ok := true
+			for _, q := range srcs {
+				qc, has := env.paramConst[q]
+				if !has || len(qc) == 0 || (len(paramFrom[q]) > 0 && !resolved[q]) {
+					ok = false
+					break
+				}
+				cs = append(cs, qc...)
+			}
+			resolved[p] = ok
+			if ok {
+				seen := map[int64]bool{}
+				merged := append([]int64{}, cs...)
+				for _, c := range env.paramConst[p] {
+					merged = append(merged, c)
+				}
+				var out []int64
+				for _, c := range merged {
+					if !seen[c] {
+						seen[c] = true
+						out = append(out, c)
+					}
+				}
+				env.paramConst[p] = out
+			}
+		}
+	}
+	// a parameter fed by a caller's parameter whose values are not known can hold anything
+	for p := range paramFrom {
+		if !resolved[p] {
 			delete(env.paramConst, p)
 		}
 	}
@@ -190,6 +240,83 @@ func (env *rangeEnv) analyse(fn *ssa.Function) *ranger {
 	return a
 }
 
+// immutableFreeVar: the variable captured as fv is stored exactly once in the enclosing function (its
+// definition) and never through any closure that captures it.
+var immFreeVarMemo = map[*ssa.FreeVar]bool{}
+var immFreeVarInit = map[*ssa.FreeVar]ssa.Value{} // the value the captured variable was defined with
+
+func immutableFreeVar(fv *ssa.FreeVar) bool {
+	if r, ok := immFreeVarMemo[fv]; ok {
+		return r
+	}
+	res := false
+	defer func() { immFreeVarMemo[fv] = res }()
+	cl := fv.Parent()
+	parent := cl.Parent()
+	if parent == nil {
+		return false
+	}
+	idx := -1
+	for i, f := range cl.FreeVars {
+		if f == fv {
+			idx = i
+		}
+	}
+	var cell ssa.Value
+	for _, b := range parent.Blocks {
+		for _, ins := range b.Instrs {
+			if mc, ok := ins.(*ssa.MakeClosure); ok && mc.Fn == ssa.Value(cl) && idx >= 0 && idx < len(mc.Bindings) {
+				if cell != nil && cell != mc.Bindings[idx] {
+					return false
+				}
+				cell = mc.Bindings[idx]
+			}
+		}
+	}
+	al, ok := cell.(*ssa.Alloc)
+	if !ok {
+		return false
+	}
+	stores := 0
+	for _, r := range *al.Referrers() {
+		switch x := r.(type) {
+		case *ssa.Store:
+			if x.Addr == ssa.Value(al) {
+				stores++
+				immFreeVarInit[fv] = x.Val
+			} else {
+				return false // the cell's address is stored somewhere
+			}
+		case *ssa.UnOp, *ssa.DebugRef:
+		case *ssa.MakeClosure:
+			// every closure sharing the cell must only load it
+			g, _ := x.Fn.(*ssa.Function)
+			if g == nil {
+				return false
+			}
+			for i, bnd := range x.Bindings {
+				if bnd != ssa.Value(al) || i >= len(g.FreeVars) {
+					continue
+				}
+				for _, r2 := range *g.FreeVars[i].Referrers() {
+					switch y := r2.(type) {
+					case *ssa.UnOp, *ssa.DebugRef:
+					case *ssa.MakeClosure:
+						return false // captured again one level down: not followed
+					default:
+						_ = y
+						return false
+					}
+				}
+			}
+		default:
+			return false
+		}
+	}
+	res = stores == 1
+	return res
+}
+
 func (a *ranger) valueKey(v ssa.Value) string {
 	if k, ok := a.keyMemo[v]; ok {
 		return k
@@ -197,6 +324,12 @@ func (a *ranger) valueKey(v ssa.Value) string {
 	var k string
 	switch x := v.(type) {
 	case *ssa.UnOp:
+		if fv, isFv := x.X.(*ssa.FreeVar); isFv && x.Op == token.MUL && immutableFreeVar(fv) {
+			// a captured variable that is assigned once, where it is declared: every load yields the same value
+			k = "captured(" + fv.Name() + ")"
+			a.keyMemo[v] = k
+			return k
+		}
 		if x.Op == token.MUL {
 			rep := a.loadRep[x]
 			if fw := a.loadFwd[x]; fw != nil {
@@ -242,6 +375,9 @@ func (a *ranger) addrShape(v ssa.Value) string {
 
 func (a *ranger) valShape(v ssa.Value) string {
 	if u, ok := v.(*ssa.UnOp); ok && u.Op == token.MUL {
+		if fv, isFv := u.X.(*ssa.FreeVar); isFv && immutableFreeVar(fv) {
+			return "captured(" + fv.Name() + ")"
+		}
 		if fw := a.loadFwd[u]; fw != nil {
 			return a.valShape(fw)
 		}
@@ -690,6 +826,91 @@ func (env *rangeEnv) returnLen(f *ssa.Function) *int64 {
 	return res
 }
 
+// retLenAtLeast: indices of the integer parameters p of f such that every return of f hands back (as
+// result 0) a slice with len >= p — e.g. a helper that collects words "until at least n bytes are there".
+func (env *rangeEnv) retLenAtLeast(f *ssa.Function) []int {
+	if v, ok := env.retGE[f]; ok {
+		return v
+	}
+	if env.retGE == nil {
+		env.retGE = map[*ssa.Function][]int{}
+	}
+	env.retGE[f] = nil // cycle guard
+	if len(f.Blocks) == 0 || f.Signature.Results().Len() == 0 || !isSliceT(f.Signature.Results().At(0).Type()) {
+		return nil
+	}
+	sub := env.analyse(f)
+	var out []int
+	for k, p := range f.Params {
+		if !isIntT(p.Type()) {
+			continue
+		}
+		all, n := true, 0
+		for _, b := range f.Blocks {
+			ret, ok := b.Instrs[len(b.Instrs)-1].(*ssa.Return)
+			if !ok || len(ret.Results) == 0 {
+				continue
+			}
+			n++
+			if !sub.provesSplit(b, le(sub.lin(p, b), sub.lenOf(ret.Results[0], b))) {
+				all = false
+			}
+		}
+		if all && n > 0 {
+			out = append(out, k)
+		}
+	}
+	env.retGE[f] = out
+	return out
+}
+
+// retLenExactly: the index of the integer parameter p of f such that every return of f hands back, as its
+// first result, a slice cut to exactly p elements (`x[:p]`, which panics rather than returning when x is
+// shorter); -1 when there is none.
+func retLenExactly(f *ssa.Function) int {
+	out := -1
+	for _, b := range f.Blocks {
+		ret, ok := b.Instrs[len(b.Instrs)-1].(*ssa.Return)
+		if !ok {
+			continue
+		}
+		if len(ret.Results) == 0 {
+			return -1
+		}
+		sl, ok := ret.Results[0].(*ssa.Slice)
+		if !ok || sl.High == nil || !isSliceT(sl.X.Type()) {
+			return -1
+		}
+		if sl.Low != nil {
+			if k, isC := sl.Low.(*ssa.Const); !isC || k.Value == nil || k.Value.String() != "0" {
+				return -1
+			}
+		}
+		hi := sl.High
+		if cv, isConv := hi.(*ssa.Convert); isConv {
+			hi = cv.X // a widening or same-size conversion of the parameter; a lossy one would have changed the cut
+			if !isIntT(hi.Type()) {
+				return -1
+			}
+		}
+		p, ok := hi.(*ssa.Parameter)
+		if !ok {
+			return -1
+		}
+		k := -1
+		for i, q := range f.Params {
+			if q == p {
+				k = i
+			}
+		}
+		if k < 0 || (out >= 0 && out != k) {
+			return -1
+		}
+		out = k
+	}
+	return out
+}
+
 // lenOf: linear expression for len(v).
 func (a *ranger) lenOf(v ssa.Value, at *ssa.BasicBlock) lin {
 	if u, ok := v.(*ssa.UnOp); ok && u.Op == token.MUL {
@@ -745,6 +966,19 @@ func (a *ranger) lenOf(v ssa.Value, at *ssa.BasicBlock) lin {
 	}
 	key := a.valueKey(v)
 	ln := a.symFor(nil, "len("+key+")")
+	// result of a fork helper whose every return is at least as long as one of its integer arguments
+	if c, ok := v.(*ssa.Call); ok {
+		if f := c.Call.StaticCallee(); f != nil && isForkPkg(f.Pkg) && f.Blocks != nil {
+			for _, k := range a.env.retLenAtLeast(f) {
+				if k < len(c.Call.Args) {
+					a.intr = append(a.intr, le(a.lin(c.Call.Args[k], at), ln))
+				}
+			}
+			if k := retLenExactly(f); k >= 0 && k < len(c.Call.Args) {
+				a.intr = append(a.intr, le(ln, a.lin(c.Call.Args[k], at)), le(a.lin(c.Call.Args[k], at), ln))
+			}
+		}
+	}
 	if u, ok := v.(*ssa.UnOp); ok && u.Op == token.MUL {
 		if fa, ok := u.X.(*ssa.FieldAddr); ok {
 			if n, ok := a.env.fieldInv[fieldID(fa)]; ok {
@@ -807,6 +1041,16 @@ func (a *ranger) condFacts(c ssa.Value, pol bool, at *ssa.BasicBlock) []cons {
 		}
 	case *ssa.BinOp:
 		if !isIntT(x.X.Type()) {
+			// err == nil for the error a fork helper returned: what the helper has established on its nil-error return
+			if (x.Op == token.EQL) == pol && (x.Op == token.EQL || x.Op == token.NEQ) {
+				v := x.X
+				if k, ok := v.(*ssa.Const); ok && k.IsNil() {
+					v = x.Y
+				} else if k, ok := x.Y.(*ssa.Const); !ok || !k.IsNil() {
+					return nil
+				}
+				return a.nilErrorFacts(v, at)
+			}
 			return nil
 		}
 		l, r := a.lin(x.X, at), a.lin(x.Y, at)
@@ -839,18 +1083,142 @@ func (a *ranger) condFacts(c ssa.Value, pol bool, at *ssa.BasicBlock) []cons {
 		case token.EQL:
 			return []cons{le(l, r), le(r, l)}
 		case token.NEQ:
-			// unsigned x != 0  =>  x >= 1
-			if isUnsigned(x.X.Type()) {
-				if r.isConst() && r.k.Sign() == 0 {
-					return []cons{le(konst64(1), l)}
-				}
-				if l.isConst() && l.k.Sign() == 0 {
-					return []cons{le(konst64(1), r)}
-				}
+			// x != 0 for x known to be >= 0 (unsigned, or a length)  =>  x >= 1
+			if r.isConst() && r.k.Sign() == 0 && (isUnsigned(x.X.Type()) || a.proves(at, le(konst64(0), l))) {
+				return []cons{le(konst64(1), l)}
+			}
+			if l.isConst() && l.k.Sign() == 0 && (isUnsigned(x.X.Type()) || a.proves(at, le(konst64(0), r))) {
+				return []cons{le(konst64(1), r)}
 			}
 		}
 	}
 	return nil
+}
+
+// nilErrorFacts: v is the error result of a call of a fork helper; returns the helper's facts at its single
+// nil-error return that speak about its parameters only (their values, lengths and capacities),
+// instantiated with the arguments of this call.
+func (a *ranger) nilErrorFacts(v ssa.Value, at *ssa.BasicBlock) []cons {
+	var call *ssa.Call
+	switch x := v.(type) {
+	case *ssa.Call:
+		call = x
+	case *ssa.Extract:
+		c, ok := x.Tuple.(*ssa.Call)
+		if !ok || x.Index != c.Type().(*types.Tuple).Len()-1 {
+			return nil
+		}
+		call = c
+	default:
+		return nil
+	}
+	f := call.Call.StaticCallee()
+	if f == nil || !isForkPkg(f.Pkg) || f.Blocks == nil || len(call.Call.Args) != len(f.Params) || f == a.fn {
+		return nil
+	}
+	if a.env.nilErrBusy == nil {
+		a.env.nilErrBusy = map[*ssa.Function]bool{}
+		a.env.nilErrSum = map[*ssa.Function]*nilErrSummary{}
+	}
+	sum, done := a.env.nilErrSum[f]
+	if !done {
+		if a.env.nilErrBusy[f] {
+			return nil
+		}
+		a.env.nilErrBusy[f] = true
+		sum = a.env.computeNilErrSummary(f)
+		a.env.nilErrSum[f] = sum
+		delete(a.env.nilErrBusy, f)
+	}
+	if sum == nil {
+		return nil
+	}
+	repl := map[string]lin{}
+	for i, p := range f.Params {
+		arg := call.Call.Args[i]
+		if isIntT(p.Type()) {
+			repl[f.Name()+":"+p.Name()] = a.lin(arg, at)
+		}
+		if isSliceT(p.Type()) || isStringT(p.Type()) {
+			repl["len("+p.Name()+")"] = a.lenOf(arg, at)
+		}
+		if isSliceT(p.Type()) {
+			repl["cap("+p.Name()+")"] = a.capOf(arg, at)
+		}
+	}
+	var out []cons
+	for _, c := range sum.facts {
+		inst := konst64(0)
+		inst.k.Set(c.k)
+		ok := true
+		for s, coef := range c.c {
+			r, has := repl[s]
+			if !has {
+				ok = false
+				break
+			}
+			inst = inst.plus(r.scale(coef))
+		}
+		if ok {
+			out = append(out, inst)
+		}
+	}
+	return out
+}
+
+type nilErrSummary struct{ facts []cons }
+
+func isStringT(t types.Type) bool {
+	b, ok := t.Underlying().(*types.Basic)
+	return ok && b.Info()&types.IsString != 0
+}
+
+func (env *rangeEnv) computeNilErrSummary(f *ssa.Function) *nilErrSummary {
+	res := f.Signature.Results()
+	if res.Len() == 0 || !types.Identical(res.At(res.Len()-1).Type(), types.Universe.Lookup("error").Type()) {
+		return nil
+	}
+	var nilRet *ssa.BasicBlock
+	for _, b := range f.Blocks {
+		ret, ok := b.Instrs[len(b.Instrs)-1].(*ssa.Return)
+		if !ok {
+			continue
+		}
+		if k, isConst := ret.Results[len(ret.Results)-1].(*ssa.Const); isConst && k.IsNil() {
+			if nilRet != nil {
+				return nil // several successful exits: no single set of facts (not needed so far)
+			}
+			nilRet = b
+		} else if !isConst {
+			// an error value that may be nil at run time: the successful exits are not syntactically known
+			if c, isCall := ret.Results[len(ret.Results)-1].(*ssa.Call); !isCall || c.Call.StaticCallee() == nil || (c.Call.StaticCallee().Name() != "New" && c.Call.StaticCallee().Name() != "Errorf") {
+				return nil
+			}
+		}
+	}
+	if nilRet == nil {
+		return nil
+	}
+	ar := env.analyse(f)
+	params := map[string]bool{}
+	for _, p := range f.Params {
+		params[f.Name()+":"+p.Name()] = true
+		params["len("+p.Name()+")"] = true
+		params["cap("+p.Name()+")"] = true
+	}
+	sum := &nilErrSummary{}
+	for _, c := range ar.facts[nilRet] {
+		ok := len(c.c) > 0
+		for s := range c.c {
+			if !params[s] {
+				ok = false
+			}
+		}
+		if ok {
+			sum.facts = append(sum.facts, c)
+		}
+	}
+	return sum
 }
 
 // ---- obligations -------------------------------------------------------------------------
@@ -982,10 +1350,82 @@ func (a *ranger) obligations() []*rangeObl {
 }
 
 // discharge decides every obligation.
+// provesSplit: like proves, and if that fails, splits at a slice-valued phi whose length/capacity occurs in
+// the goal: the goal must then follow, for every incoming edge, from the facts of that edge with the phi's
+// length (capacity) replaced by the incoming value's.
+func (a *ranger) provesSplit(at *ssa.BasicBlock, goal lin) bool {
+	if a.proves(at, goal) {
+		return true
+	}
+	for symName, coef := range goal.c {
+		kind := ""
+		switch {
+		case strings.HasPrefix(symName, "len(") && strings.HasSuffix(symName, ")"):
+			kind = "len"
+		case strings.HasPrefix(symName, "cap(") && strings.HasSuffix(symName, ")"):
+			kind = "cap"
+		default:
+			continue
+		}
+		name := symName[4 : len(symName)-1]
+		var phi *ssa.Phi
+		for _, b := range a.fn.Blocks {
+			for _, ins := range b.Instrs {
+				if p, ok := ins.(*ssa.Phi); ok && p.Name() == name && isSliceT(p.Type()) {
+					phi = p
+				}
+			}
+		}
+		if phi == nil || !(phi.Block() == at || phi.Block().Dominates(at)) {
+			continue
+		}
+		all := true
+		for i, e := range phi.Edges {
+			pred := phi.Block().Preds[i]
+			// an edge from inside a loop headed by the phi's block would need an invariant: not handled
+			if phi.Block().Dominates(pred) {
+				all = false
+				break
+			}
+			var repl lin
+			if kind == "len" {
+				repl = a.lenOf(e, pred)
+			} else {
+				repl = a.capOf(e, pred)
+			}
+			cs := append(append(append([]cons{}, a.intr...), a.facts[at]...), a.facts[pred]...)
+			if iff, ok := pred.Instrs[len(pred.Instrs)-1].(*ssa.If); ok && pred.Succs[0] != pred.Succs[1] {
+				cs = append(cs, a.condFacts(iff.Cond, pred.Succs[0] == phi.Block(), pred)...)
+			}
+			cs = append(cs, a.intr...)
+			g2 := newLin()
+			g2.k.Set(goal.k)
+			for s2, c2 := range goal.c {
+				if s2 != symName {
+					g2.c[s2] = new(big.Rat).Set(c2)
+				}
+			}
+			g2 = g2.plus(repl.scale(coef))
+			ok, und := entails(cs, g2)
+			if und {
+				a.undecided = true
+			}
+			if !ok {
+				all = false
+				break
+			}
+		}
+		if all {
+			return true
+		}
+	}
+	return false
+}
+
 func (a *ranger) discharge(obs []*rangeObl) {
 	for _, o := range obs {
 		a.undecided = false
-		if a.proves(o.Block, o.Goal) {
+		if a.provesSplit(o.Block, o.Goal) {
 			o.Status = Holds
 			o.Facts = len(a.facts[o.Block])
 			continue
